@@ -1476,6 +1476,24 @@ def _self_inner_product(a, b):
     return ra is rb and pa != pb
 
 
+def _own_factor_projection(a, b):
+    """M V^H (= U S) or U^H M (= S V): a matrix contracted with the conjugate of a factor of ITS OWN decomposition (possibly a column / row selection of it)"""
+    for m_, f_ in ((a, b), (b, a)):
+        rf, par = _view_root(f_)
+        hops = 0
+        while isinstance(rf, Arr) and rf.origin == 'getitem' and rf.parents and hops < 4:          # u[:, :r], v[idx, :]
+            rf, p2 = _view_root(rf.parents[0])
+            par ^= p2
+            hops += 1
+        pv = rf.tags.get('prov') if isinstance(rf, Arr) else None
+        if par == 1 and isinstance(pv, dict) and ('svd' in pv or 'qr' in pv) and isinstance(pv.get('of'), Arr):
+            rm, pm = _view_root(m_)
+            ro, po = _view_root(pv['of'])
+            if pm == po and (rm is ro or (isinstance(rm, Arr) and isinstance(ro, Arr) and rm.buf is ro.buf)):
+                return f_
+    return None
+
+
 def check_contract(a, b, ax_a, ax_b, what):
     for i, j in zip(ax_a, ax_b):
         if not sz_eq(a.shape[i], b.shape[j]):
@@ -1493,6 +1511,8 @@ def check_contract(a, b, ax_a, ax_b, what):
             why = can_contract(x, y)
             if why and 'one side is complex-conjugated' in why and _self_inner_product(a, b):
                 continue        # X^H X: an array contracted with its own conjugate over the same index (a Gram matrix / norm), not two ends of one bond
+            if why and 'one side is complex-conjugated' in why and _own_factor_projection(a, b) is not None:
+                continue        # M V^H = U S: the projection of a matrix onto its own singular vectors
             if why:
                 CTX.event('contract-type-error', a=a, b=b, axes=(i, j), detail=f'{what}: {why}')
     CTX.event('contract', a=a, b=b, axes=(tuple(ax_a), tuple(ax_b)), what=what)
@@ -1523,7 +1543,18 @@ def tensordot(a, b, axes=2):
     check_contract(a, b, ax_a, ax_b, 'tensordot')
     ra = [i for i in range(a.ndim) if i not in ax_a]
     rb = [i for i in range(b.ndim) if i not in ax_b]
-    r = Arr([a.shape[i] for i in ra] + [b.shape[i] for i in rb], [a.legs[i] for i in ra] + [b.legs[i] for i in rb], join_dtype(a.dt, b.dt), None, {}, 'tensordot')
+    la, lb = [a.legs[i] for i in ra], [b.legs[i] for i in rb]
+    if CTX.typed and ax_a:
+        fac = _own_factor_projection(a, b)
+        if fac is not None:
+            # M V^H = U S (U^H M = S V): the new bond is the plain bond of the decomposition, not the conjugated one the conjugated factor carries
+            def unconj(groups):
+                return [tuple(l.flipped() if (l.resolve().kind == 'R' and l.resolve().conj) else l for l in g) for g in groups]
+            if fac is b:
+                lb = unconj(lb)
+            else:
+                la = unconj(la)
+    r = Arr([a.shape[i] for i in ra] + [b.shape[i] for i in rb], la + lb, join_dtype(a.dt, b.dt), None, {}, 'tensordot')
     orth_after_contract(r, a, b, ax_a, ax_b, ra, rb)
     mx_after_contract(r, a, b, ax_a, ax_b)
     if 'opalg' in a.tags and 'opalg' in b.tags:
